@@ -136,7 +136,11 @@ def case_mvn(case, res):
     if lam_s[r - 1] > 1e3 * noise:
         utol = float(np.sqrt(lam_s[r - 1] * noise))
         Psj = jnp.asarray(Ps, ft)
-        scaled = {"init(tol)": lambda: MVND(locj, Psj, tol=utol), "init(tol,rank)": lambda: MVND(locj, Psj, rank=r, tol=utol)}
+        scaled = {"init(tol)": lambda: MVND(locj, Psj, tol=utol), "init(tol,rank)": lambda: MVND(locj, Psj, rank=r, tol=utol),
+                  # a supplied rank is honoured whatever the (default) tolerance says about the size of the eigenvalues
+                  "init(rank), default tol": lambda: MVND(locj, Psj, rank=r),
+                  "from_penalty(rank), default tol": lambda: MVND.from_penalty(locj, jnp.asarray(1.0, ft), Psj, rank=r),
+                  "from_penalty_smooth(rank), default tol": lambda: MVND.from_penalty_smooth(locj, jnp.asarray(1.0, ft), Psj, rank=r)}
         w_tol = dict(w, precision_norm=sc_, tol=utol, smallest_nonzero_eigenvalue=float(lam_s[r - 1]))
         for name, mk in scaled.items():
             d = mk()
@@ -151,6 +155,22 @@ def case_mvn(case, res):
                     break
     else:
         res.skip("no tolerance separates the eigenvalues at this scale")
+    # the distribution does not alias the caller's buffers: a NumPy precision matrix / location overwritten in place
+    # after the construction changes nothing
+    if case["idx"] % 2 == 0:
+        npdt = np.float64 if x64 else np.float32
+        Pbuf, lbuf = np.array(P, npdt), np.array(loc, npdt)
+        dal = MVND(lbuf, Pbuf, rank=r, log_pdet=jnp.asarray(logpdetP, ft))
+        xal = jnp.asarray(pts_for_scaled(rng, loc, P, r), ft)
+        before_ = float(dal.log_prob(xal))
+        Pbuf[...] = np.eye(m) * 7.0
+        lbuf[...] = 100.0
+        after_ = float(dal.log_prob(xal))
+        d_fresh = MVND(jnp.asarray(loc, ft), Pj, rank=r, log_pdet=jnp.asarray(logpdetP, ft))
+        res.mon("mvn_not_aliasing_caller_buffers")
+        if off(after_, before_, 0.0) or off(before_, float(d_fresh.log_prob(xal)), tol(before_)):
+            res.violation("mvn-aliasing", f"log_prob changed from {before_} to {after_} after the caller overwrote the NumPy arrays it "
+                          f"had passed as loc / prec (a fresh distribution gives {float(d_fresh.log_prob(xal))})", w)
     # integer-typed precision matrix (D'D of an integer difference matrix)
     if style == "rw":
         # (JAX promotes int32 to float32 and int64 to float64 whatever the x64 flag says: int64 in the x64 cases)
